@@ -587,18 +587,243 @@ theorem cells_glue_face (s : Pt → Bool) (p : Pt) (a : Nat) (ha : a < 3) :
   rw [hid, List.map_id] at r
   exact l.trans r.symm
 
+/-! ### at most once: no directed edge is emitted twice -/
+
+/-- a relative lattice edge of the unit cube -/
+def okRel (l : LEdge) : Bool :=
+  decide (0 ≤ l.1.1 ∧ l.1.1 ≤ 1 ∧ 0 ≤ l.1.2.1 ∧ l.1.2.1 ≤ 1 ∧ 0 ≤ l.1.2.2 ∧ l.1.2.2 ≤ 1 ∧ l.2 < 3 ∧ coord l.2 l.1 = 0)
+
+theorem table_segs_unit : ∀ b0 b1 b2 b3 b4 b5 b6 b7 : Bool,
+    (caseSegsRel (caseIndex (bits8 b0 b1 b2 b3 b4 b5 b6 b7))).all (fun e => okRel e.1 && okRel e.2 && e.1 != e.2) = true := by
+  decide +kernel
+
+def cubeEdges : List LEdge := (List.range 12).map edgeRel
+def steps : List Pt :=
+  [(-1:Int), 0, 1].flatMap fun x => [(-1:Int), 0, 1].flatMap fun y => [(-1:Int), 0, 1].map fun z => (x, y, z)
+
+/-- geometry of the unit lattice, by enumeration: if two distinct lattice edges of a cell are also (after the shift `d ≠ 0`)
+    two lattice edges of the neighbouring cell, the cells share a face that contains both -/
+theorem table_shared_edges :
+    steps.all (fun d => d = (0, 0, 0) || cubeEdges.all fun r1' => cubeEdges.all fun r2' =>
+      let r1 := shiftL d r1'; let r2 := shiftL d r2'
+      !(okRel r1 && okRel r2 && r1 != r2) ||
+      (List.range 3).any fun a =>
+        (d = unit a && onFace a 1 r1 && onFace a 1 r2 && onFace a 0 r1' && onFace a 0 r2') ||
+        (d = negUnit a && onFace a 0 r1 && onFace a 0 r2 && onFace a 1 r1' && onFace a 1 r2')) = true := by
+  decide +kernel
+
+
+theorem idx4_lt_aux (K : List Bool) : idx4 K < 16 := by unfold idx4; split_ifs <;> omega
+
+theorem canon_bits4_aux (a : Nat) (K : List Bool) : canon a K = canon a (bits4 (idx4 K)) := by
+  have h : ∀ k, k < 16 → idx4 (bits4 k) = k := by decide
+  unfold canon; rw [h _ (idx4_lt_aux K)]
+
+theorem canon_no_antiparallel_aux (a : Nat) (ha : a < 3) (K : List Bool) (e : DEdge) (h1 : e ∈ canon a K)
+    (h2 : swapE e ∈ canon a K) : False := by
+  rw [canon_bits4_aux] at h1 h2
+  have h := table_canon_no_antiparallel
+  rw [List.all_eq_true] at h
+  have h' := h a (List.mem_range.mpr ha)
+  rw [List.all_eq_true] at h'
+  have h'' := h' _ (List.mem_range.mpr (idx4_lt_aux K))
+  rw [List.all_eq_true] at h''
+  have := h'' e h1
+  simp at this
+  exact this h2
+
+theorem segs_ok_aux (s : Pt → Bool) (p : Pt) (e : DEdge) (h : e ∈ caseSegsRel (caseIndex (cellBits s p))) :
+    okRel e.1 = true ∧ okRel e.2 = true ∧ e.1 ≠ e.2 := by
+  have := table_segs_unit (s (padd p (cornerOff 0))) (s (padd p (cornerOff 1))) (s (padd p (cornerOff 2)))
+    (s (padd p (cornerOff 3))) (s (padd p (cornerOff 4))) (s (padd p (cornerOff 5))) (s (padd p (cornerOff 6)))
+    (s (padd p (cornerOff 7)))
+  rw [List.all_eq_true] at this
+  have := this e h
+  simpa [and_assoc] using this
+
+/-- two face-adjacent cells never emit the same directed edge -/
+theorem adjacent_disjoint_aux (s : Pt → Bool) (p : Pt) (a : Nat) (ha : a < 3) (r r' : DEdge)
+    (hr : r ∈ caseSegsRel (caseIndex (cellBits s p)))
+    (hr' : r' ∈ caseSegsRel (caseIndex (cellBits s (padd p (unit a)))))
+    (hf1 : (onFace a 1 r.1 && onFace a 1 r.2) = true) (hf0 : (onFace a 0 r'.1 && onFace a 0 r'.2) = true)
+    (heq : r = shiftE (unit a) r') : False := by
+  have h1 := table_face_canonical (s (padd p (cornerOff 0))) (s (padd p (cornerOff 1))) (s (padd p (cornerOff 2)))
+    (s (padd p (cornerOff 3))) (s (padd p (cornerOff 4))) (s (padd p (cornerOff 5))) (s (padd p (cornerOff 6)))
+    (s (padd p (cornerOff 7)))
+  have h2 := table_face_canonical (s (padd (padd p (unit a)) (cornerOff 0))) (s (padd (padd p (unit a)) (cornerOff 1)))
+    (s (padd (padd p (unit a)) (cornerOff 2))) (s (padd (padd p (unit a)) (cornerOff 3)))
+    (s (padd (padd p (unit a)) (cornerOff 4))) (s (padd (padd p (unit a)) (cornerOff 5)))
+    (s (padd (padd p (unit a)) (cornerOff 6))) (s (padd (padd p (unit a)) (cornerOff 7)))
+  rw [List.all_eq_true] at h1 h2
+  have h1' := h1 a (List.mem_range.mpr ha)
+  have h2' := h2 a (List.mem_range.mpr ha)
+  simp only [Bool.and_eq_true, List.isPerm_iff] at h1' h2'
+  change (faceSegs (caseIndex (cellBits s p)) a 1).Perm _ ∧ _ at h1'
+  change _ ∧ (faceSegs (caseIndex (cellBits s (padd p (unit a)))) a 0).Perm _ at h2'
+  have e1 : faceBits (bits8 (s (padd p (cornerOff 0))) (s (padd p (cornerOff 1))) (s (padd p (cornerOff 2)))
+      (s (padd p (cornerOff 3))) (s (padd p (cornerOff 4))) (s (padd p (cornerOff 5))) (s (padd p (cornerOff 6)))
+      (s (padd p (cornerOff 7)))) a 1 = latticeFaceBits s (padd p (unit a)) a := faceBits_high_aux s p a ha
+  have e2 : faceBits (bits8 (s (padd (padd p (unit a)) (cornerOff 0))) (s (padd (padd p (unit a)) (cornerOff 1)))
+      (s (padd (padd p (unit a)) (cornerOff 2))) (s (padd (padd p (unit a)) (cornerOff 3)))
+      (s (padd (padd p (unit a)) (cornerOff 4))) (s (padd (padd p (unit a)) (cornerOff 5)))
+      (s (padd (padd p (unit a)) (cornerOff 6))) (s (padd (padd p (unit a)) (cornerOff 7)))) a 0
+      = latticeFaceBits s (padd p (unit a)) a := faceBits_low_aux s (padd p (unit a)) a ha
+  rw [e1] at h1'; rw [e2] at h2'
+  have m1 : r ∈ faceSegs (caseIndex (cellBits s p)) a 1 := List.mem_filter.mpr ⟨hr, hf1⟩
+  have m2 : r' ∈ faceSegs (caseIndex (cellBits s (padd p (unit a)))) a 0 := List.mem_filter.mpr ⟨hr', hf0⟩
+  have m1' := h1'.1.mem_iff.mp m1
+  have m2' := h2'.2.mem_iff.mp m2
+  obtain ⟨x, hx, hxr⟩ := List.mem_map.mp m1'
+  obtain ⟨y, hy, hyr⟩ := List.mem_map.mp m2'
+  have : x = swapE y := by
+    apply shiftE_injective_aux (unit a)
+    rw [hxr, heq, ← hyr]
+  rw [this] at hx
+  exact canon_no_antiparallel_aux a ha _ y hy hx
+
+theorem okRel_mem_cubeEdges_aux (l : LEdge) (h : okRel l = true) : l ∈ cubeEdges := by
+  obtain ⟨⟨x, y, z⟩, k⟩ := l
+  simp only [okRel, decide_eq_true_eq] at h
+  obtain ⟨h1, h2, h3, h4, h5, h6, h7, h8⟩ := h
+  interval_cases x <;> interval_cases y <;> interval_cases z <;> interval_cases k <;>
+    first | decide +kernel | (exfalso; revert h8; decide)
+
+theorem steps_mem_aux (d : Pt) (h1 : -1 ≤ d.1 ∧ d.1 ≤ 1) (h2 : -1 ≤ d.2.1 ∧ d.2.1 ≤ 1) (h3 : -1 ≤ d.2.2 ∧ d.2.2 ≤ 1) :
+    d ∈ steps := by
+  obtain ⟨x, y, z⟩ := d
+  obtain ⟨a1, a2⟩ := h1; obtain ⟨b1, b2⟩ := h2; obtain ⟨c1, c2⟩ := h3
+  simp only at a1 a2 b1 b2 c1 c2
+  interval_cases x <;> interval_cases y <;> interval_cases z <;> decide
+
+theorem okRel_bounds_aux (l : LEdge) (h : okRel l = true) :
+    0 ≤ l.1.1 ∧ l.1.1 ≤ 1 ∧ 0 ≤ l.1.2.1 ∧ l.1.2.1 ≤ 1 ∧ 0 ≤ l.1.2.2 ∧ l.1.2.2 ≤ 1 := by
+  simp only [okRel, decide_eq_true_eq] at h
+  exact ⟨h.1, h.2.1, h.2.2.1, h.2.2.2.1, h.2.2.2.2.1, h.2.2.2.2.2.1⟩
+
+/-- two different cells never emit the same directed edge -/
+theorem cells_disjoint_aux (s : Pt → Bool) (p p' : Pt) (hne : p ≠ p') (e : DEdge)
+    (h1 : e ∈ cellEdges s p) (h2 : e ∈ cellEdges s p') : False := by
+  obtain ⟨r, hr, hre⟩ := List.mem_map.mp h1
+  obtain ⟨r', hr', hre'⟩ := List.mem_map.mp h2
+  obtain ⟨ok1, ok2, hne12⟩ := segs_ok_aux s p r hr
+  obtain ⟨ok1', ok2', hne12'⟩ := segs_ok_aux s p' r' hr'
+  have b1 := okRel_bounds_aux _ ok1; have b1' := okRel_bounds_aux _ ok1'
+  let d : Pt := (p'.1 - p.1, p'.2.1 - p.2.1, p'.2.2 - p.2.2)
+  have hp' : p' = padd p d := by
+    obtain ⟨px, py, pz⟩ := p; obtain ⟨qx, qy, qz⟩ := p'
+    simp only [padd, d, Prod.mk.injEq]; refine ⟨?_, ?_, ?_⟩ <;> omega
+  have hee : shiftE p r = shiftE p (shiftE d r') := by
+    rw [hre, ← hre', hp']
+    simp only [shiftE, shiftL, padd_assoc_aux]
+  have hrr : r = shiftE d r' := shiftE_injective_aux p hee
+  have hr1 : r.1 = shiftL d r'.1 := by rw [hrr]; rfl
+  have hr2 : r.2 = shiftL d r'.2 := by rw [hrr]; rfl
+  have hd0 : d ≠ (0, 0, 0) := by
+    intro h0; apply hne; rw [hp', h0]
+    obtain ⟨px, py, pz⟩ := p; simp [padd]
+  have hdm : d ∈ steps := by
+    have e1 : r.1.1 = padd d r'.1.1 := by rw [hr1]; rfl
+    apply steps_mem_aux
+    · have : r.1.1.1 = d.1 + r'.1.1.1 := by rw [e1]; rfl
+      omega
+    · have : r.1.1.2.1 = d.2.1 + r'.1.1.2.1 := by rw [e1]; rfl
+      omega
+    · have : r.1.1.2.2 = d.2.2 + r'.1.1.2.2 := by rw [e1]; rfl
+      omega
+  have T := table_shared_edges
+  rw [List.all_eq_true] at T
+  have T1 := T d hdm
+  simp only [Bool.or_eq_true, decide_eq_true_eq] at T1
+  rcases T1 with h0 | T2
+  · exact hd0 h0
+  rw [List.all_eq_true] at T2
+  have T3 := T2 _ (okRel_mem_cubeEdges_aux _ ok1')
+  rw [List.all_eq_true] at T3
+  have T4 := T3 _ (okRel_mem_cubeEdges_aux _ ok2')
+  simp only [← hr1, ← hr2, ok1, ok2, Bool.and_self, Bool.true_and, Bool.or_eq_true, Bool.not_eq_true',
+    bne_eq_false_iff_eq, List.any_eq_true, Bool.and_eq_true, decide_eq_true_eq, List.mem_range] at T4
+  rcases T4 with heq | ⟨a, ha, hcase⟩
+  · exact hne12 heq
+  rcases hcase with ⟨⟨⟨⟨hda, f1⟩, f2⟩, f3⟩, f4⟩ | ⟨⟨⟨⟨hda, f1⟩, f2⟩, f3⟩, f4⟩
+  · -- p' = p + e_a
+    have hr'' : r' ∈ caseSegsRel (caseIndex (cellBits s (padd p (unit a)))) := by rw [← hda, ← hp']; exact hr'
+    exact adjacent_disjoint_aux s p a ha r r' hr hr'' (by simp [f1, f2]) (by simp [f3, f4]) (by rw [hrr, hda])
+  · -- p = p' + e_a
+    have hpp : p = padd p' (unit a) := by
+      rw [hp', hda, padd_assoc_aux]
+      obtain ⟨px, py, pz⟩ := p
+      have : a = 0 ∨ a = 1 ∨ a = 2 := by omega
+      rcases this with rfl | rfl | rfl <;> simp [padd, negUnit, unit]
+    have hr'' : r ∈ caseSegsRel (caseIndex (cellBits s (padd p' (unit a)))) := by rw [← hpp]; exact hr
+    have hback : r' = shiftE (unit a) r := by
+      rw [hrr, hda]
+      obtain ⟨⟨⟨x1, y1, z1⟩, k1⟩, ⟨⟨x2, y2, z2⟩, k2⟩⟩ := r'
+      have : a = 0 ∨ a = 1 ∨ a = 2 := by omega
+      rcases this with rfl | rfl | rfl <;> simp [shiftE, shiftL, padd, negUnit, unit]
+    exact adjacent_disjoint_aux s p' a ha r' r hr' hr'' (by simp [f3, f4]) (by simp [f1, f2]) hback
+
+theorem boxCells_nodup_aux (o : Pt) (nx ny nz : Nat) : (boxCells o nx ny nz).Nodup := by
+  obtain ⟨ox, oy, oz⟩ := o
+  unfold boxCells
+  rw [List.nodup_flatMap]
+  refine ⟨fun i _ => ?_, ?_⟩
+  · rw [List.nodup_flatMap]
+    refine ⟨fun j _ => ?_, ?_⟩
+    · refine List.Nodup.map ?_ List.nodup_range
+      intro k k' h
+      simp only [padd, Prod.mk.injEq] at h
+      have := h.2.2; simp only [Int.ofNat_eq_natCast] at this; omega
+    · refine List.Pairwise.imp ?_ (List.nodup_range (n := ny))
+      intro j j' hne q h1 h2
+      obtain ⟨k, _, rfl⟩ := List.mem_map.mp h1
+      obtain ⟨k', _, h⟩ := List.mem_map.mp h2
+      simp only [padd, Prod.mk.injEq, Int.ofNat_eq_natCast] at h
+      omega
+  · refine List.Pairwise.imp ?_ (List.nodup_range (n := nx))
+    intro i i' hne q h1 h2
+    obtain ⟨j, _, hj⟩ := List.mem_flatMap.mp h1
+    obtain ⟨k, _, rfl⟩ := List.mem_map.mp hj
+    obtain ⟨j', _, hj'⟩ := List.mem_flatMap.mp h2
+    obtain ⟨k', _, h⟩ := List.mem_map.mp hj'
+    simp only [padd, Prod.mk.injEq, Int.ofNat_eq_natCast] at h
+    omega
+
+/-- **At most once.**  Over any box and any sign pattern no directed edge (lattice-edge ids) is emitted twice:
+    inside a cell by the table (`table_case_edges_nodup`); two different cells can share two distinct lattice edges
+    only across a common face (`table_shared_edges`), where one draws `canon` and the other its reverse
+    (`table_face_canonical`), and `canon` never contains a segment together with its reverse. -/
+theorem box_edges_nodup (s : Pt → Bool) (o : Pt) (nx ny nz : Nat) : (boxEdges s o nx ny nz).Nodup := by
+  unfold boxEdges
+  rw [List.nodup_flatMap]
+  refine ⟨fun p _ => cell_edges_nodup s p, ?_⟩
+  refine (boxCells_nodup_aux o nx ny nz).imp ?_
+  intro p p' hne e h1 h2
+  exact cells_disjoint_aux s p p' hne e h1 h2
+
+
 /-- the full closedness statement in lattice-edge ids: balanced AND every directed edge at most once, i.e.
-    "every directed edge is matched by the opposite edge of exactly one triangle".
-    NOT proved: `march_closed_balanced` proves the first conjunct; the second is proved only inside a cell
-    (`cell_edges_nodup`); see notes/C09.md for the missing geometric step. -/
+    "every directed edge is matched by the opposite edge of exactly one triangle" -/
 def C09_closed_full : Prop :=
   ∀ (s : Pt → Bool) (o : Pt) (nx ny nz : Nat), BoundaryOutside s o nx ny nz →
     Balanced (boxEdges s o nx ny nz) ∧ (boxEdges s o nx ny nz).Nodup
 
-/-- the proved part of `C09_closed_full` -/
-theorem C09_closed_partial (s : Pt → Bool) (o : Pt) (nx ny nz : Nat) (hbd : BoundaryOutside s o nx ny nz) :
-    Balanced (boxEdges s o nx ny nz) ∧ ∀ p ∈ boxCells o nx ny nz, (cellEdges s p).Nodup :=
-  ⟨march_closed_balanced s o nx ny nz hbd, fun p _ => cell_edges_nodup s p⟩
+/-- **march_closed.**  For every box of cells (any origin, any size) and every sign pattern that is outside on the
+    box's boundary layer, the triangles produced by the table form a closed, consistently oriented surface in
+    lattice-edge ids: every directed edge occurs exactly once and its reverse occurs exactly once. -/
+theorem march_closed : C09_closed_full :=
+  fun s o nx ny nz hbd => ⟨march_closed_balanced s o nx ny nz hbd, box_edges_nodup s o nx ny nz⟩
+
+theorem reverse_mem_of_balanced_aux {V : Type} [DecidableEq V] {L : List (V × V)} (hb : Balanced L) (u v : V)
+    (h : (u, v) ∈ L) : (v, u) ∈ L := by
+  have : 0 < L.count (u, v) := List.count_pos_iff.mpr h
+  rw [hb u v] at this
+  exact List.count_pos_iff.mp this
+
+/-- "exactly one", spelled out without counting: the list of directed edges has no repetition, and with every
+    directed edge it contains the reverse edge -/
+theorem march_closed_exactly_one (s : Pt → Bool) (o : Pt) (nx ny nz : Nat) (hbd : BoundaryOutside s o nx ny nz) :
+    (boxEdges s o nx ny nz).Nodup ∧ ∀ u v, (u, v) ∈ boxEdges s o nx ny nz → (v, u) ∈ boxEdges s o nx ny nz :=
+  ⟨box_edges_nodup s o nx ny nz, fun u v h => reverse_mem_of_balanced_aux (march_closed_balanced s o nx ny nz hbd) u v h⟩
 
 /-! ## 6. The weld keeps the surface balanced -/
 
